@@ -17,16 +17,16 @@ def in_scope(t):
     m = t['meta']
     if m.get('c20') or p['type'] != 'direct':
         return False
-    if any(o['op'] not in ('pause', 'resume', 'stop', 'rerun', 'skip') for o in (m.get('ops') or [])):
+    if any(o['op'] not in ('pause', 'resume', 'stop', 'rerun', 'skip', 'wait') for o in (m.get('ops') or [])):
         return False
     if p['flags'].get('multi_trigger') or p['flags'].get('sub'):
         return False
     for n, d in p['tasks'].items():
         # retry, wait-before, wait-after, timeout and with-items (with concurrency) are modelled; pause-before, fail-on,
         # sub-workflows and with-items combined with another policy are not
-        if d['kind'] != 'action' or d['pauseBefore'] or d['failOn']:
+        if d['kind'] != 'action':
             return False
-        if d['items'] >= 0 and (d['retry'] or d['waitBefore'] or d['waitAfter'] or d['timeout']):
+        if d['items'] >= 0 and (d['retry'] or d['waitBefore'] or d['waitAfter'] or d['timeout'] or d['pauseBefore'] or d['failOn']):
             return False
     # a task name must not be instantiated twice (e.g. the same target named by on-success and on-complete)
     last = t['steps'][-1]['obs']
@@ -40,7 +40,7 @@ def def_tla(prog):
 
 
 INVARIANTS = ['TypeOK', 'NoHangM', 'NoWaitingAtRestM', 'JoinOnceM', 'StartOnceM', 'FinalIffLastM', 'StopAtFirstSuccessM',
-              'OnePerIndexM', 'WithinLimitM', 'CompleteAfterAllM']
+              'OnePerIndexM', 'WithinLimitM', 'CompleteAfterAllM', 'FailOnAppliedM', 'PauseBeforeM']
 PROPERTIES = ['JoinGateM', 'FinishedFrozenM', 'ResultOnceM', 'SuccessStickyM', 'LegalWfM', 'NoNewTasksWhilePausedM', 'NoNewTasksAfterStopM',
               'PauseAckM', 'StopAckM', 'DupNoEffectM', 'RerunAckM', 'SkipAckM']
 
